@@ -115,35 +115,9 @@ def error_set(ctx, b, seen=None):
 
 
 def _ok_edge(F, b, call_bi, t):
-    """(ok_edge, err_edge) of a match / ? / is_err() on the Result returned by call t"""
-    cfg, pv = F.cfg(b), F.prov(b)
-    dst = t['dst']['l']
-    # direct discriminant switch on the result, or via Try::branch, or via is_err()/is_ok()
-    for bi in sorted(cfg.reach):
-        bb = b['blocks'][bi]
-        tt = bb['term']
-        if tt['k'] != 'switch':
-            continue
-        term = pv.of_operand(tt['op'])
-        if isinstance(term, tuple) and term[0] == 'discr':
-            src = term[1]
-            if isinstance(src, tuple) and src[0] == 'call' and src[3] == call_bi:
-                oks = [tg for v, tg in tt['targets'] if v == 0]
-                errs = [tg for v, tg in tt['targets'] if v == 1]
-                ok_t = oks[0] if oks else tt['otherwise']
-                err_t = errs[0] if errs else tt['otherwise']
-                return (bi, ok_t), (bi, err_t)
-            if isinstance(src, tuple) and src[0] == 'call' and src[1].endswith('Try>::branch') and src[2] and isinstance(src[2][0], tuple) and src[2][0][0] == 'call' and src[2][0][3] == call_bi:
-                conts = [tg for v, tg in tt['targets'] if v == 0]
-                brks = [tg for v, tg in tt['targets'] if v == 1]
-                return (bi, conts[0] if conts else tt['otherwise']), (bi, brks[0] if brks else tt['otherwise'])
-        if isinstance(term, tuple) and term[0] == 'call' and term[1] in ('std::result::Result::is_err', 'std::result::Result::is_ok') and term[2]:
-            src = strip_payload(term[2][0])
-            if isinstance(src, tuple) and src[0] == 'call' and src[3] == call_bi:
-                z = [tg for v, tg in tt['targets'] if v == 0]
-                te, fe = (bi, tt['otherwise']), (bi, z[0] if z else tt['otherwise'])
-                return (fe, te) if term[1].endswith('is_err') else (te, fe)
-    return None, None
+    """(ok_edge, err_edge) of the branch on the Result returned by call t (match / `?` / is_err / through map_err & co.)"""
+    from .core import outcome_edges
+    return outcome_edges(F, b, call_bi)
 
 
 def p2_disconnect_directed(ctx, flavours):
